@@ -31,10 +31,22 @@ RULE = ("calls of backoff / backoff_iter(+ at most `take` next() calls) with bin
 ASSUMPTIONS = ["CPython float is IEEE-754 binary64 with round-to-nearest-even, identical to Coq's PrimFloat (both use the hardware)",
                "float(x) of an int/Fraction/Decimal argument that is exactly representable returns that value",
                "random.random() returns a float in [0, 1)"]
-TRUSTED = ["Model/C15_Model.v is hand-written; tied to boltons.iterutils.backoff/backoff_iter by the correspondence run",
+TRUSTED = ["Model/C15_Model.v is hand-written; tied to boltons.iterutils.backoff/backoff_iter by the correspondence run and, for "
+           "the body of backoff_iter (validation chain, count loop, negative-count and jitter tests, loop condition, cur_ret, "
+           "state update), by the source translator harness/translators/c15_src.py (Gen/C15_Src.v regenerated each run; "
+           "C15_source_matches_model proves it equal to the model's functions)",
            "harness/c15.py serialiser (float.hex -> Coq hexadecimal float literal)",
            "the IEEE-754 facts in Lib/C15_Float.v (order_laws, grow_laws, jitter_laws) are hypotheses of the generic "
            "theorems; see notes/C15.md for which are discharged for binary64 from FloatAxioms/Flocq"]
+
+def translators(repo):
+    """(T) tie: regenerate coq/Gen/C15_Src.v from the current source of backoff_iter (fail closed)."""
+    import os
+    import sys
+    sys.path.insert(0, os.path.join(os.path.dirname(os.path.abspath(__file__)), "translators"))
+    import c15_src
+    return c15_src.generate(repo)
+
 
 INF = float("inf")
 NAN = float("nan")
